@@ -27,7 +27,8 @@ REACH_PROBES = ['long_child_after_timeout_none', 'op_set', 'op_unset', 'op_timeo
                 'act_spec_outside_setup', 'ref_unknown', 'ref_known', 'value_from_program', 'timeout_none',
                 'fault_between_ops', 'cleanup_after_fault_sees_state', 'slow_below', 'slow_above_killed',
                 'ops_in_cleanup', 'ops_in_assert', 'atc_observed', 'stub_view_observed', 'cd_relative',
-                'atc_by_command_line_actor', 'process_with_empty_environment', 'atc_by_file_actor', 'atc_by_source_actor']
+                'atc_by_command_line_actor', 'process_with_empty_environment', 'atc_by_file_actor', 'atc_by_source_actor',
+                'cd_fails', 'cleanup_after_failing_cd_observes_cwd']
 
 NAMES = ['V1', 'V2', 'V3', 'SIMBASE_A']
 PHASES = ['setup', 'before-assert', 'assert', 'cleanup']
@@ -109,7 +110,10 @@ def make_plan(i, master, tier):
     procs = {'atc': {'exit': 0, 'stdout': 'o\n'}}
     ops = gen_ops(g, procs)
     case = {'conf': [], 'setup': [{'k': 'real', 'text': 'def path HERE = marker.txt'},
-                                  {'k': 'real', 'text': 'dir -rel-act d1/d2'}, {'k': 'real', 'text': 'dir -rel-tmp t1'}],
+                                  {'k': 'real', 'text': 'def path NOWHERE = -rel-tmp t1/no-such-dir'},
+                                  {'k': 'real', 'text': 'dir -rel-act d1/d2'}, {'k': 'real', 'text': 'dir -rel-tmp t1'},
+                                  {'k': 'real', 'text': 'file -rel-tmp t1/a-file.txt = "a file"'},
+                                  {'k': 'real', 'text': 'file -rel-act d1/d2/a-file.txt = "a file"'}],
             'before-assert': [], 'assert': [], 'cleanup': [], 'act': {'lines': ['% atc']}}
     n = [0]
 
@@ -154,6 +158,15 @@ def make_plan(i, master, tier):
             procs[it['id']] = dict(procs[it['id']], exit=fr.choice([1, 3]))
     elif mode < 0.45:
         slow = fr.choice(['below', 'below', 'above'])
+    elif mode < 0.57:
+        # a `cd` that fails (the directory does not exist / is a file / lies under a file): HARD_ERROR there - and the
+        # current directory stays what it was: [cleanup] (the only phase that still runs) observes it
+        ph = fr.choice(PHASES[:3])
+        at = fr.randint(7 if ph == 'setup' else 1, len(case[ph]))  # (in [setup]: after the lines that make the directories)
+        syn = fr.choice(['-rel-act no-such-dir', '-rel-tmp no-such-dir', '-rel-act d1/no-such-dir', '-rel-tmp t1/a-file.txt',
+                         '-rel-act d1/d2/a-file.txt/sub', 'no-such-dir', '-rel-cd no-such-dir',
+                         '@[NOWHERE]@'])
+        case[ph].insert(at, {'k': 'real', 'id': 'xcd', 'text': 'cd ' + syn, 'mfail': 'hard_error'})
     plan = {'format': 1, 'property': PROPERTY, 'engine': 'c11', 'run_seed': seed, 'tier': tier,
             'knobs': {'mem_buff_size': g.choice([1, 64, 8192])}, 'entry': 'cli', 'status': 'PASS', 'act_mode': False,
             'case': case, 'procs': procs, 'faults': faults, 'slow': slow, 'sweep': False, 'keep': g.random() < 0.25}
@@ -425,6 +438,11 @@ def _probes(plan, hist):
     tags = [e['id'] for e in hist['events'] if e['kind'] == 'spawn']
     if any(t.startswith('v') for t in tags):
         pr['value_from_program'] = 1
+    if primary is not None and primary['kind'] == 'real_hard_error':
+        pr['cd_fails'] = 1
+        pos = P.index_case(plan['case'])
+        if any(e['kind'] == 'spawn' and pos.get(e['id'], ('',))[0] == 'cleanup' for e in hist['events']):
+            pr['cleanup_after_failing_cd_observes_cwd'] = 1
     if primary is not None:
         pr['fault_between_ops'] = 1
         if executed_ops and any(e['id'].startswith('p') and e['seq'] > primary['seq'] for e in hist['events']):
@@ -484,6 +502,10 @@ def normalize(plan):
     # value programs must keep their behaviour; the two directory-creating lines must stay
     texts = [it.get('text') for it in plan['case']['setup']]
     if 'dir -rel-act d1/d2' not in texts or 'dir -rel-tmp t1' not in texts or 'def path HERE = marker.txt' not in texts:
+        return None
+    if any('a-file.txt' in (t or '') or 'NOWHERE' in (t or '') for ph in PHASES for t in [it.get('text') for it in plan['case'][ph] if it.get('mfail')]) \
+            and not all(x in texts for x in ('def path NOWHERE = -rel-tmp t1/no-such-dir', 'file -rel-tmp t1/a-file.txt = "a file"',
+                                            'file -rel-act d1/d2/a-file.txt = "a file"')):
         return None
     model = S.Settings(world_mod.FIXED_ENVIRON)
     for ph in PHASES:
